@@ -64,6 +64,18 @@ Tolerances (closed; all float64, eps = 2.2e-16; relative to scale = 1 + max|refe
   mcquad       sampler = fixed nodes with self-normalised weights prop. to p: the estimator is an explicit finite sum,
                whose autograd derivatives coincide with mcquad's score-function backward -> 1e-12 / 1e-11.
   Interp1D/SQuad  piecewise-linear / trapezoid formulas in plain torch -> 1e-13 / 1e-12.
+
+Units of measurement and spellings of `mode` (all three tasks):
+  * the data carry a unit drawn from 1e-20 .. 1e6 (right-hand side of solve, the matrix of symeig / svd, the residual / objective of the
+    root family, y0, the integrand, ordinates; admissible sets per functional in unit_choices) and the cotangent a magnitude drawn from
+    1e-20 .. 1e6.  Every functional is homogeneous in that unit, the gradients are linear in the cotangent, and all bounds above are
+    relative: the comparison scales become  unit + max|reference|.  A right-hand side / cotangent in tiny units is not zero: the caller's
+    callable (forward and backward) must be called for it and its result returned; only an exactly zero B is documented to be short-cut.
+  * symeig / svd are called with `mode` in any letter case of the documented values "lowest", "uppest", "uppermost" (symeig lower-cases
+    it and maps the alias before the default method sees it).  The caller-supplied callable must be handed one of the documented values,
+    with the caller's meaning; names / wrap compare bit-for-bit with the run that spells `mode` canonically ("lowest" / "uppest"), so
+    every built-in and every wrapped built-in has to return the same end of the spectrum for every spelling; closed compares with the
+    dense reference for the canonical meaning.
 """
 from __future__ import annotations
 
@@ -90,6 +102,8 @@ RULE = ("names: functional x built-in name x random case pattern (>=1 upper-case
         "(rootfinder/equilibrium/minimize), where the automatic backward solver would be iterative. Order 3 where a backward method of the "
         "caller is observable: calls of the backward callable are counted per differentiation pass (c2 >= 2 c1, c3 >= 2 c2; quad c2 >= c1) "
         "and every nested call must carry the documented options with grad mode off. "
+        "All tasks: data in units 1e-12..1e6 (1e-20 with closed-form callables; per functional: unit_choices) and cotangents of magnitude 1e-10..1e6 (1e-20 with closed-form callables); symeig/svd `mode` in 12 "
+        "spellings (letter cases of lowest/uppest/uppermost), compared with the canonical spelling and checked as seen by the callable. "
         "Non-trivial = the run differentiated at least one leaf with a non-zero reference/first gradient (names, custom) or the rejection "
         "was observed (unknown); distinct by canonical case.")
 ASSUMPTIONS = [
@@ -97,7 +111,15 @@ ASSUMPTIONS = [
     "custom callable signature = the functional's own signature without bck_options/method (doc/getstart/custom_method.rst); for mcquad the "
     "callable is a sampler (logpfcn, x0, pparams, **opts) -> (xsamples, wsamples) as the built-in samplers; for equilibrium/minimize the "
     "function handed to the callable may be the root form / the (value, gradient) form used by the built-in methods",
-    "solve is never given B == 0 with a callable (the documented zero short-cut does not call any method)",
+    "solve is never given B == 0 with a callable (the documented zero short-cut does not call any method); a right-hand side or cotangent "
+    "in tiny units (entries down to ~1e-20, products with the cotangent down to ~1e-40) is not zero and is solved by the caller's method",
+    "units: the functionals are homogeneous in the unit of their data and all tolerances are relative to unit + max|reference|; excluded by "
+    "construction where an ABSOLUTE documented threshold or the caller's own function breaks the homogeneity: symeig units >= 1e-4 (degen_atol), "
+    "svd 1e-2..1e3 (Gram operator squares the unit), equilibrium with the closed-form comparison d in [0.125, 0.5] (y - f(y) cancels), "
+    "solve_ivp with the closed-form comparison unit 1 (atol of the adaptive backward integrator); built-in root finders units <= 1",
+    "symeig/svd `mode`: the docstring names \"lowest\", \"uppermost\"/\"uppest\"; other letter cases are accepted by symeig itself (lower-cased "
+    "before the default method) and therefore must mean the same for every other method; a callable is handed one of the three documented "
+    "lower-case values (the alias \"uppermost\" would be accepted as seen by the callable)",
     "solve_ivp is not differentiated w.r.t. ts; mcquad tensors each enter f or log p (no unused tensors); symeig spectra are separated",
     "bit-identity of name variants assumes single-threaded deterministic torch kernels and reseeding the global RNG before each run",
     "closed-form tolerances as derived in the module docstring; the independent reference is autograd through plain-torch closed forms",
@@ -171,8 +193,8 @@ def _rand(g, shape, lo, hi):
 # unit of the right-hand side / integrand / ordinates, an eigenproblem in the unit of A, a root in the unit of the residual) and the
 # gradients are linear in the cotangent: values and gradients in small or large units are the unit-1 values times the unit.  All error
 # bounds of the docstring are relative, so the comparison scales become  unit + max|reference|  instead of  1 + max|reference|.
-UNITS_FULL = [1e-12, 1e-9, 1e-6, 1e-3, 1.0, 1.0, 1e3, 1e6]
-COTS_FULL = [1e-10, 1e-7, 1e-4, 1.0, 1.0, 1e3, 1e6]
+UNITS_FULL = [1e-20, 1e-12, 1e-9, 1e-6, 1e-3, 1.0, 1.0, 1e3, 1e6]
+COTS_FULL = [1e-20, 1e-10, 1e-7, 1e-4, 1.0, 1.0, 1e3, 1e6]
 
 
 def unit_choices(fn, exact):
@@ -185,18 +207,26 @@ def unit_choices(fn, exact):
     if fn == "svd":
         return [1e-2, 1e-1, 1.0, 1.0, 1e2, 1e3]      # the Gram operator carries the square of the unit
     if fn == "equilibrium":
-        return [1e-12, 1e-9, 1e-6, 1e-3, 1.0, 1.0]   # y -> y - d (sinh(K y) - c) stays a contraction for d <= 0.5
+        # y -> y - d (sinh(K y) - c) stays a contraction for d <= 0.5.  The root form y - f(y) = d (sinh(K y) - c) and its Jacobian are
+        # obtained by subtraction from y / the identity: their relative accuracy is eps / d (a property of the caller's function, not
+        # of xitorch), so the closed-form comparison keeps d in [0.125, 0.5]
+        return [0.25, 0.5, 1.0, 1.0] if exact else [1e-12, 1e-9, 1e-6, 1e-3, 1.0, 1.0]
     if fn in ("rootfinder", "minimize"):
         return UNITS_FULL if exact else [1e-12, 1e-9, 1e-6, 1e-3, 1.0, 1.0]   # built-in iterations stay finite for residual units <= 1
     if fn == "solve_ivp":
         # the adaptive integrator of the backward pass measures its error by rtol * |augmented state| + atol (absolute): with state,
         # adjoint and parameter gradients in different units the documented accuracy is relative to the largest of them only
-        return [1.0] if exact else UNITS_FULL
-    return UNITS_FULL
+        return [1.0] if exact else UNITS_FULL[1:]
+    return UNITS_FULL if exact else UNITS_FULL[1:]
 
 
 def cot_choices(fn, exact):
-    return [1.0] if (fn == "solve_ivp" and exact) else COTS_FULL
+    # the extreme magnitude 1e-20 only where every solve is a direct one (closed-form / recording callables, exactsolve): the iterative
+    # built-ins carry absolute safeguards of their own (broyden1 as a linear solver gives up with "Jacobian inversion yielded zero vector"
+    # for a right-hand side of 1e-20), which is not this property's subject
+    if fn == "solve_ivp" and exact:
+        return [1.0]
+    return COTS_FULL if exact else COTS_FULL[1:]
 
 
 def canon_mode(mode):
@@ -1002,19 +1032,49 @@ def compare_ref(res, ref, prob, order, what, labels, cot=1.0):
 # ------------------------------------------------------------------------------------------------
 # task "names"
 
+def mode_class(mode):
+    """how the caller spells symeig's / svd's `mode`: one of the two values the implementations are handed, the documented alias, or
+    another letter case of either"""
+    if mode in ("lowest", "uppest"):
+        return "canonical"
+    if mode == "uppermost":
+        return "alias"
+    return "othercase/" + canon_mode(mode)
+
+
+def scale_labels(case):
+    out = ["unit=%g" % case["prob"].get("unit", 1.0), "cot=%g" % case.get("cot", 1.0)]
+    if "mode" in case["prob"]:
+        out.append("mode=" + mode_class(case["prob"]["mode"]))
+    return out
+
+
+def canonical_case(case):
+    """the same case with `mode` (symeig, svd) in the spelling that the implementations are documented to receive"""
+    if "mode" not in case["prob"]:
+        return case
+    c = dict(case)
+    c["prob"] = dict(case["prob"], mode=canon_mode(case["prob"]["mode"]))
+    return c
+
+
 def run_names(case):
     fn, method = case["fn"], case["method"]
     where = case["where"]
     var = variant(case["bname"] if where == "bck" else method, case["mask"])
     labels = ["task=names", "fn=" + fn, "where=" + where, "order=%d" % case["order"],
-              "name=%s/%s" % (fn, case["bname"] if where == "bck" else method)]
+              "name=%s/%s" % (fn, case["bname"] if where == "bck" else method)] + scale_labels(case)
     low = case["bname"] if where == "bck" else method
-    if var == low:
+    mode = case["prob"].get("mode")
+    respelled = mode is not None and mode != canon_mode(mode)
+    if var == low and not respelled:
         return discard("no_upper_case_letter", labels)
     fwd = fast_opts(fn, method)
     results = []
-    for spelling in (low, var):
-        prob, _ = build(case)
+    # reference spelling: lower-case method name and, for symeig / svd, the canonical `mode`; variant: the case pattern and the caller's
+    # spelling of `mode` (another letter case, or the alias "uppermost")
+    for spelling, c in ((low, canonical_case(case)), (var, case)):
+        prob, _ = build(c)
         if where == "fwd":
             bck = None
             m = spelling
@@ -1030,7 +1090,10 @@ def run_names(case):
             return violation("variant_raises:%s/%s:%s" % (fn, low, e.kind.split(":")[1].split("@")[0]),
                              "%s(%s=%r) raises although %r works: %s" % (fn, "method" if where == "fwd" else "bck_options.method", var, low, e.detail[:600]),
                              labels)
-    v = compare_exact(results[0], results[1], "%s %s=%r vs %r" % (fn, "method" if where == "fwd" else "bck method", var, low), labels)
+    what = "%s %s=%r vs %r" % (fn, "method" if where == "fwd" else "bck method", var, low)
+    if respelled:
+        what += " and mode=%r vs %r" % (mode, canon_mode(mode))
+    v = compare_exact(results[0], results[1], what, labels)
     if v is not None:
         return v
     g1 = results[0]["g1"]
@@ -1038,7 +1101,14 @@ def run_names(case):
     return ok(labels, nontrivial=nontrivial)
 
 
-def prob_st(draw, fn):
+def prob_st(draw, fn, exact=False):
+    """exact: the case is compared with the closed-form reference (restricts the units of measurement, see unit_choices)"""
+    prob = _prob_st(draw, fn)
+    prob["unit"] = draw(st.sampled_from(unit_choices(fn, exact)))
+    return prob
+
+
+def _prob_st(draw, fn):
     fl = st.floats(-1.5, 1.5, allow_subnormal=False, width=32)
     if fn == "solve":
         sym = draw(st.booleans())
@@ -1047,10 +1117,10 @@ def prob_st(draw, fn):
     if fn == "symeig":
         n = draw(st.integers(3, 5))
         return {"n": n, "neig": draw(st.one_of(st.none(), st.integers(1, n - 1))),
-                "mode": draw(st.sampled_from(["lowest", "uppest", "uppermost"])), "M": draw(st.booleans())}
+                "mode": draw(st.sampled_from(MODE_SPELLINGS)), "M": draw(st.booleans())}
     if fn == "svd":
         m, n = draw(st.integers(2, 4)), draw(st.integers(2, 4))
-        return {"m": m, "n": n, "k": draw(st.integers(1, min(m, n))), "mode": draw(st.sampled_from(["lowest", "uppest"]))}
+        return {"m": m, "n": n, "k": draw(st.integers(1, min(m, n))), "mode": draw(st.sampled_from(MODE_SPELLINGS))}
     if fn in ("rootfinder", "equilibrium", "minimize"):
         return {"n": draw(st.integers(1, 3))}
     if fn == "solve_ivp":
@@ -1095,7 +1165,7 @@ def names_st(draw, tier="quick"):
         mask[draw(st.sampled_from([i for i, ch in enumerate(name) if ch.isalpha()]))] = 1
     order = draw(st.sampled_from([1, 2]))
     return {"fn": fn, "method": method, "where": where, "bname": bname, "mask": mask, "order": order,
-            "prob": prob_st(draw, fn), "seed": draw(st.integers(0, 2 ** 31 - 2))}
+            "prob": prob_st(draw, fn), "cot": draw(st.sampled_from(cot_choices(fn, False))), "seed": draw(st.integers(0, 2 ** 31 - 2))}
 
 
 # ------------------------------------------------------------------------------------------------
@@ -1305,6 +1375,20 @@ def _close(a, b, tol=1e-12):
     return a.shape == b.shape and bool(((a - b).abs() <= tol * (1 + b.abs())).all())
 
 
+DOCUMENTED_MODES = ("lowest", "uppest", "uppermost")
+
+
+def _mode_arg_error(seen, asked):
+    """the `mode` handed to a caller-supplied method must be one of the documented values (symeig's docstring: "lowest" or
+    "uppermost"/"uppest") and mean what the caller asked for (the caller's spelling may be any letter case of these: symeig lower-cases
+    it before the default method sees it, so every other method has to see the same)"""
+    if not isinstance(seen, str) or seen not in DOCUMENTED_MODES:
+        return "mode=%r is not one of the documented values %r (the caller passed %r)" % (seen, DOCUMENTED_MODES, asked)
+    if canon_mode(seen) != canon_mode(asked):
+        return "mode=%r, the caller passed %r" % (seen, asked)
+    return None
+
+
 def check_args(fn, prob, args):
     """documented positional arguments of the forward call; returns an error string or None"""
     from xitorch import LinearOperator
@@ -1315,7 +1399,7 @@ def check_args(fn, prob, args):
         Am, Mm = prob.mats()
         if not isinstance(A, LinearOperator) or not _close(A.fullmatrix(), Am.detach()):
             return "A is not the caller's operator"
-        if not (isinstance(B, torch.Tensor) and _close(B, prob.B.detach())):
+        if not (isinstance(B, torch.Tensor) and _close(B / prob.unit, prob.B.detach() / prob.unit)):
             return "B is not the caller's right hand side"
         if (E is None) != (prob.E is None) or (E is not None and not _close(E, prob.E.detach())):
             return "E is not the caller's E"
@@ -1326,12 +1410,13 @@ def check_args(fn, prob, args):
         if len(args) != 4:
             return "expected (A, neig, mode, M), got %d positional arguments" % len(args)
         A, neig, mode, M = args
-        if not isinstance(A, LinearOperator) or not _close(A.fullmatrix(), _sym(prob.La).detach()):
+        if not isinstance(A, LinearOperator) or not _close(A.fullmatrix() / prob.unit, _sym(prob.La).detach() / prob.unit):
             return "A is not the caller's operator"
         if neig != prob.k():
             return "neig=%r, the caller asked for %r of %d" % (neig, prob.neig, prob.n)
-        if not isinstance(mode, str) or mode.lower() not in (prob.mode.lower(), prob.norm_mode()):
-            return "mode=%r, the caller passed %r" % (mode, prob.mode)
+        err = _mode_arg_error(mode, prob.mode)
+        if err:
+            return err
         if (M is None) != (prob.Lm is None) or (M is not None and not _close(M.fullmatrix(), _sym(prob.Lm).detach())):
             return "M is not the caller's M"
         return None
@@ -1342,11 +1427,11 @@ def check_args(fn, prob, args):
         A, neig, mode, M = args
         La = prob.La.detach()
         gram = La @ La.T if La.shape[0] < La.shape[1] else La.T @ La
-        if not isinstance(A, LinearOperator) or not _close(A.fullmatrix(), gram, 1e-11):
+        if not isinstance(A, LinearOperator) or not _close(A.fullmatrix() / prob.unit ** 2, gram / prob.unit ** 2, 1e-11):
             return "A is not the Gram operator of the caller's matrix"
-        if neig != prob.k or not isinstance(mode, str) or mode.lower() != prob.mode or M is not None:
-            return "neig/mode/M = %r/%r/%r, the caller asked for k=%r mode=%r" % (neig, mode, M, prob.k, prob.mode)
-        return None
+        if neig != prob.k or M is not None:
+            return "neig/M = %r/%r, the caller asked for k=%r" % (neig, M, prob.k)
+        return _mode_arg_error(mode, prob.mode)
     if fn in ("rootfinder", "equilibrium", "minimize"):
         if len(args) != 3:
             return "expected (fcn, y0, params), got %d positional arguments" % len(args)
@@ -1360,18 +1445,19 @@ def check_args(fn, prob, args):
         with torch.no_grad():
             out = fcn(yt, *params)
             wp = [w.detach() for w in want]
+            r = prob.unit     # unit of the residual / objective: compared in that unit
             if fn == "rootfinder":
-                good = isinstance(out, torch.Tensor) and _close(out, prob.f_root(yt, *wp))
+                good = isinstance(out, torch.Tensor) and _close(out / r, prob.f_root(yt, *wp) / r)
             elif fn == "equilibrium":
                 fy = prob.f_equil(yt, *wp)
                 good = isinstance(out, torch.Tensor) and (_close(out, fy) or _close(out, yt - fy))
             else:
-                z = prob.f_min(yt, *wp)
+                z = prob.f_min(yt, *wp) / r
                 grad = wp[0].T @ (torch.sinh(wp[0] @ yt) - wp[1])
                 if isinstance(out, torch.Tensor):
-                    good = _close(out, z) or _close(out, grad, 1e-10)
+                    good = _close(out / r, z) or _close(out / r, grad, 1e-10)
                 else:
-                    good = len(out) == 2 and _close(out[0], z) and _close(out[1], grad, 1e-10)
+                    good = len(out) == 2 and _close(out[0] / r, z) and _close(out[1] / r, grad, 1e-10)
         return None if good else "fcn does not evaluate the caller's function (value/root/gradient form) at a test point"
     if fn == "solve_ivp":
         if len(args) != 4:
@@ -1447,7 +1533,7 @@ def run_custom(case):
     order = case["order"]
     flavor = case.get("flavor", "object")
     labels = ["task=custom", "fn=" + fn, "kind=" + kind + ("/" + case["wrapped"] if kind == "wrap" else ""), "order=%d" % order,
-              "nfwd=%d" % len(case["fwd"]), "bck=" + case["bckmode"], "callable=" + flavor]
+              "nfwd=%d" % len(case["fwd"]), "bck=" + case["bckmode"], "callable=" + flavor] + scale_labels(case)
     if fn == "solve" or fn in ROOT_FAMILY:
         labels.append("unknowns=" + (">5" if case["prob"]["n"] > 5 else "<=5"))
     if fn == "solve":
@@ -1612,8 +1698,9 @@ def run_custom(case):
             else:
                 labels = labels + ["eig_builtin_forward=differs"]
         return ok(labels, nontrivial=bool(nonzero))
-    # wrap: bit-identical with the built-in's name and the same options
-    prob2, _ = build(case)
+    # wrap: bit-identical with the built-in's name and the same options (symeig / svd: the name path is given the canonical spelling of
+    # `mode`, the callable path the caller's spelling: the wrapped built-in must be handed the same value in both)
+    prob2, _ = build(canonical_case(case))
     bck2 = None
     if bck_arg is not None:
         bck2 = dict(bck_arg)
@@ -1623,7 +1710,10 @@ def run_custom(case):
             else:
                 bck2["method"] = case["wrapped"]
     res2 = evaluate(prob2, case, case["wrapped"], fwd, bck2, order, case["seed"] + 1)
-    v = compare_exact(res2, res, "%s: callable wrapping %r vs method=%r" % (fn, case["wrapped"], case["wrapped"]), labels)
+    what = "%s: callable wrapping %r vs method=%r" % (fn, case["wrapped"], case["wrapped"])
+    if "mode" in case["prob"] and case["prob"]["mode"] != canon_mode(case["prob"]["mode"]):
+        what += " (mode=%r vs mode=%r)" % (case["prob"]["mode"], canon_mode(case["prob"]["mode"]))
+    v = compare_exact(res2, res, what, labels)
     if v is not None:
         return v
     g1 = res["g1"]
@@ -1678,25 +1768,32 @@ def custom_st(draw, tier="quick"):
     order = draw(st.sampled_from([1, 2]))
     if order == 2 and third_order_applies(fn, kind, bckmode) and draw(st.sampled_from([False, False, True])):
         order = 3
-    prob = enlarge(fn, prob_st(draw, fn), bckmode, lambda xs: draw(st.sampled_from(xs)), lambda lo, hi: draw(st.integers(lo, hi)))
+    exact = kind == "closed"
+    prob = enlarge(fn, prob_st(draw, fn, exact), bckmode, lambda xs: draw(st.sampled_from(xs)), lambda lo, hi: draw(st.integers(lo, hi)))
     return {"fn": fn, "kind": kind, "wrapped": wrapped, "fwd": fwd, "bck": bck, "bckmode": bckmode, "flavor": flavor,
-            "order": order, "prob": prob, "seed": draw(st.integers(0, 2 ** 31 - 2))}
+            "order": order, "prob": prob, "cot": draw(st.sampled_from(cot_choices(fn, exact))), "seed": draw(st.integers(0, 2 ** 31 - 2))}
 
 
 # ------------------------------------------------------------------------------------------------
 # exhaustive part of the quantifier: every functional x every built-in name / wrappable built-in, each run
 
-def prob_rand(fn, r):
+def prob_rand(fn, r, exact=False):
     """python-random twin of prob_st for the enumerated tasks"""
+    prob = _prob_rand(fn, r)
+    prob["unit"] = r.choice(unit_choices(fn, exact))
+    return prob
+
+
+def _prob_rand(fn, r):
     if fn == "solve":
         sym, E = r.random() < 0.5, r.random() < 0.5
         return {"n": r.randint(2, 4), "ncols": r.randint(1, 3), "sym": sym, "E": E, "M": E and sym and r.random() < 0.5}
     if fn == "symeig":
         n = r.randint(3, 5)
-        return {"n": n, "neig": r.choice([None] + list(range(1, n))), "mode": r.choice(["lowest", "uppest", "uppermost"]), "M": r.random() < 0.5}
+        return {"n": n, "neig": r.choice([None] + list(range(1, n))), "mode": r.choice(MODE_SPELLINGS), "M": r.random() < 0.5}
     if fn == "svd":
         m, n = r.randint(2, 4), r.randint(2, 4)
-        return {"m": m, "n": n, "k": r.randint(1, min(m, n)), "mode": r.choice(["lowest", "uppest"])}
+        return {"m": m, "n": n, "k": r.randint(1, min(m, n)), "mode": r.choice(MODE_SPELLINGS)}
     if fn in ("rootfinder", "equilibrium", "minimize"):
         return {"n": r.randint(1, 3)}
     if fn == "solve_ivp":
@@ -1754,13 +1851,13 @@ def enum_names(tier, shard, nshards):
                         first = next(i for i, ch in enumerate(method) if ch.isalpha())
                         mask = {"upper": [1], "capital": [1 if i == first else 0 for i in range(len(method))], "alt": _alt_mask(method)}[style]
                         return {"fn": fn, "method": method, "where": "fwd", "bname": None, "mask": mask, "order": order,
-                                "prob": prob_rand(fn, r), "seed": seed}
+                                "prob": prob_rand(fn, r), "cot": r.choice(cot_choices(fn, False)), "seed": seed}
                     cases.append(mk)
         for bname in BCK_NAMES.get(fn, []):
             def mk(r, seed, fn=fn, bname=bname):
                 method = r.choice([m for m in BUILTINS[fn] if m not in DIRECT])
                 return {"fn": fn, "method": method, "where": "bck", "bname": bname, "mask": r.choice([[1], _alt_mask(bname)]),
-                        "order": r.choice([1, 2]), "prob": prob_rand(fn, r), "seed": seed}
+                        "order": r.choice([1, 2]), "prob": prob_rand(fn, r), "cot": r.choice(cot_choices(fn, False)), "seed": seed}
             cases.append(mk)
     return _sharded(cases, shard, nshards)
 
@@ -1796,9 +1893,10 @@ def enum_custom(tier, shard, nshards):
                         flavor = r.choice(FLAVORS)
                         if order == 2 and third_order_applies(fn, kind, bckmode) and r.random() < 0.34:
                             order = 3
-                        prob = enlarge(fn, prob_rand(fn, r), bckmode, r.choice, r.randint)
+                        exact = kind == "closed"
+                        prob = enlarge(fn, prob_rand(fn, r, exact), bckmode, r.choice, r.randint)
                         return {"fn": fn, "kind": kind, "wrapped": wrapped, "fwd": fwd, "bck": bck, "bckmode": bckmode, "flavor": flavor,
-                                "order": order, "prob": prob, "seed": seed}
+                                "order": order, "prob": prob, "cot": r.choice(cot_choices(fn, exact)), "seed": seed}
                     cases.append(mk)
     return _sharded(cases, shard, nshards)
 
